@@ -14,10 +14,17 @@ RULE = ("inputs: output of an independent (Python) LZSS+adaptive-Huffman encoder
         "are a prefix of a harness-side reference decoder's output, no bytes after a short GetData, payload is a prefix with "
         "fewer than eight further codes; relational oracle: every schedule of one input delivers the same bytes. "
         "distinct = distinct protocol lines")
-PROVED = ("see evidence theorems: bit reader with its shift register = the pure bit function; window invariant (circular buffer "
-          "= last 4096 bytes of the unbounded history) preserved by literal and (overlapping) match; every store inside the "
-          "4096-byte buffer; drain interfaces deliver exactly the undelivered bytes in order")
-PARTIAL = ("real heap layout is not modelled: 'stays within the decoder's own memory' is the theorem that every model index is "
+PROVED = ("for EVERY byte string and EVERY finite schedule of GetData(k)/GetInternalBuffer calls the concatenated deliveries equal the "
+          "first so-many bytes of the reference decoder's output (no gaps, no reordering), a call fails only when the reference "
+          "itself ends at the tree's capacity, GetData(k) delivers min(k, remaining), an empty GetInternalBuffer means everything was "
+          "delivered (the ExtractFileLzh loop), two schedules delivering equally many bytes deliver the same bytes; the reference "
+          "decoder terminates on every input (each code but the last consumes a bit); window invariant: the circular buffer holds the "
+          "last 4096 bytes of the unbounded history through literals and overlapping matches; offsets are 12-bit, matches 3..60 bytes, "
+          "buffer size / indices / waiting count stay < 4096, maxFill + 60 < 4096 (regenerated constant), tree stores in bounds (C15); "
+          "GetOffsetModifiers translated from the clang AST equals the model's table; regenerated constants equal the model's")
+PARTIAL = ("the encoder round-trip law (decode(encode tokens) = payload ++ <8 codes) is decided by the three-encoder / payload-prefix "
+           "correspondence only, not by a theorem; BitStreamReader's shift register is tied to the pure bit function by the bits.ops "
+           "correspondence (direct oracle = the property's own description); real heap layout is not modelled: 'stays within the decoder's own memory' is the theorem that every model index is "
            "< 4096 / inside the tree tables plus the ASan run; std::vector / FileWriter in VolFile::ExtractFileLzh are trusted")
 TRUSTED = ["harness-side C++ reference decoder and Python encoder (each cross-checked against the Lean Spec by the correspondence run)"]
 ASSUMPTIONS = ["input length < 2^61 bytes (BitStreamReader refuses larger buffers)"]
